@@ -168,8 +168,17 @@ def connector_release(u: U):
     closed = u.choose(2, "connector.closed") == 1
     force = u.bool("force_close")
     arg = u.bool("should_close_arg")
+    # requests may be queued for this endpoint (or another) while the connection is released: whether anyone waits
+    # does not change what may be pooled
+    waiters = collections.defaultdict(collections.OrderedDict)
+    queued = u.choose(3, "waiters")
+    if queued == 1:
+        waiters[key]["FUT"] = None
+    elif queued == 2:
+        waiters[_Key()]["FUT2"] = None
     c = u.obj("BaseConnector", {"_closed": closed, "_force_close": force, "_conns": conns, "_cleanup_handle": "H",
-                                "_cleanup_closed_disabled": True, "_cleanup_closed_transports": []},
+                                "_cleanup_closed_disabled": True, "_cleanup_closed_transports": [],
+                                "_waiters": waiters},
               {"_release_acquired": lambda self, k, pr: log.append(("release_acquired", k, pr))}, shared=False)
     f = u.load(CONN, "BaseConnector._release", globals={"monotonic": lambda: 1.0})
     out = u.call(f, c, key, p, should_close=arg)
